@@ -627,6 +627,16 @@ Definition parse_fp_gen (fuel : nat) (w : pw) (c : cfg) (content : option str) :
   (w4, c3, match rc with PERR => CFG_PARSE_ERROR | _ => CFG_SUCCESS end).
 
 Definition parse_fp (fuel : nat) (w : pw) (c : cfg) (content : str) : pw * cfg * Z := parse_fp_gen fuel w c (Some content).
+(* cfg_parse_fp on a stream that delivers `content` and then reports a read error *)
+Definition parse_fp_partial (fuel : nat) (w : pw) (c : cfg) (content : str) : pw * cfg * Z :=
+  let depth := length (l_inc (w_lex w)) in
+  let c1 := match c_file c with None => set_file c (Some (M "FILE")) | Some _ => c end in
+  let c2 := set_line c1 1 in
+  let w1 := upd_lex w (scan_begin_partial (w_lex w) content) in
+  let '(w2, c3, rc) := parse_internal fuel w1 c2 0 (pst0 0 None) in
+  let w3 := include_unwind (S MAX_INCLUDE_DEPTH) w2 depth in
+  let w4 := upd_lex w3 (scan_end (w_lex w3)) in
+  (w4, c3, match rc with PERR => CFG_PARSE_ERROR | _ => CFG_SUCCESS end).
 (* the stream cannot be read (the application opened a directory) *)
 Definition parse_fp_unreadable (fuel : nat) (w : pw) (c : cfg) : pw * cfg * Z := parse_fp_gen fuel w c None.
 
